@@ -3,6 +3,27 @@ import Irismod.Sdk.GoSem
 namespace Irismod.Gen.PureTokenFee
 open Irismod.Sdk Irismod.GoSem
 
+def MintToken_precision_1 (token_Scale : Nat) : Option (Int) := do
+  let t1 ← NewIntWithDecimal (1 : Int) (token_Scale : Int)
+  some t1
+
+def MintToken_mintableAmt_1 (token_MaxSupply : Nat) (precision : Int) (supply : Int) : Option (Int) := do
+  let t1 ← Int_Mul (NewIntFromUint64 (token_MaxSupply : Int)) precision
+  let t2 ← Int_Sub t1 supply
+  some t2
+
+/-- rejects when true: `owner.String() != token.Owner` -/
+def MintToken_guard_1 (read_owner_String : String) (token_Owner : String) : Option (Bool) := do
+  some (read_owner_String != token_Owner)
+
+/-- rejects when true: `!token.Mintable` -/
+def MintToken_guard_2 (token_Mintable : Bool) : Option (Bool) := do
+  some (!token_Mintable)
+
+/-- rejects when true: `coinMinted.Amount.GT(mintableAmt)` -/
+def MintToken_guard_3 (coinMinted : Coin) (mintableAmt : Int) : Option (Bool) := do
+  some (Int_GT coinMinted.amount mintableAmt)
+
 def GetTokenMintFee_mintFee_1 (fee : Coin) (params_MintTokenFeeRatio : Dec) : Option (Int) := do
   let t1 ← Dec_Mul (LegacyNewDecFromInt fee.amount) params_MintTokenFeeRatio
   let t2 ← Dec_TruncateInt t1
@@ -22,6 +43,6 @@ def calcFeeByBase_actualFee_1 (baseFee : Int) (feeFactor : Dec) : Option (Dec) :
 def untranslated : List String := []
 
 /-- names of the translated definitions -/
-def translated : List String := ["GetTokenMintFee_mintFee_1", "feeHandler_communityTaxCoin_1", "calcFeeByBase_actualFee_1"]
+def translated : List String := ["MintToken_precision_1", "MintToken_mintableAmt_1", "MintToken_guard_1", "MintToken_guard_2", "MintToken_guard_3", "GetTokenMintFee_mintFee_1", "feeHandler_communityTaxCoin_1", "calcFeeByBase_actualFee_1"]
 
 end Irismod.Gen.PureTokenFee
